@@ -4,7 +4,7 @@
 From Coq Require Import Reals Lra Lia QArith List Bool Psatz.
 From Coquelicot Require Import Coquelicot.
 From OV.base Require Import Num Piecewise.
-From OV.gen Require Import Gen_ConstrainedObjective.
+From OV.gen Require Import Gen_ConstrainedObjective Gen_AlSolver Gen_BoundConstrainedObjective.
 From OV.model Require Import M_C04_AL.
 Import ListNotations.
 Local Open Scope R_scope.
@@ -198,12 +198,31 @@ Proof.
   - constructor; [lra|apply IH; assumption].
 Qed.
 
+(* the regenerated update statements of AlSolver.solve_sub_step (gen/Gen_AlSolver.v), one constraint *)
+Lemma sub_lam_update_closed l k c : @sub_lam_update R NumR l k c = Rmax (l - k * c) 0.
+Proof.
+  unfold sub_lam_update, nmax. unfold_num. q2r. unfold Rmax.
+  destruct (Rle_dec (l - k * c) 0); rcases; lra.
+Qed.
+Lemma sub_lam_update_nonneg l k c : 0 <= @sub_lam_update R NumR l k c.
+Proof. rewrite sub_lam_update_closed. apply Rmax_r. Qed.
+Lemma sub_kappa_update_mono k p s : 1 <= s -> 0 <= k ->
+  k <= @sub_kappa_update R NumR k p s /\ 0 <= @sub_kappa_update R NumR k p s.
+Proof. intros Hs Hk. unfold sub_kappa_update. unfold_num. destruct p; split; nra. Qed.
+Lemma sub_kappa_update_only_if_poor k s : @sub_kappa_update R NumR k false s = k.
+Proof. unfold sub_kappa_update. reflexivity. Qed.
+(* a constraint is flagged only if its complementarity error exceeds BOTH the required decrease and the absolute floor *)
+Lemma sub_poor_progress_spec e old tdf tl m : @sub_poor_progress R NumR e old tdf tl m = true ->
+  tdf * old < e /\ 10 * tl / sqrt m < e.
+Proof.
+  unfold sub_poor_progress, nmax. unfold_num. q2r. intros H. apply Rltb_true in H. revert H. rcases; intros; lra.
+Qed.
+
 Lemma lam_update_nonneg lam kappa c : nonneg (@lam_update R NumR lam kappa c).
 Proof.
-  unfold lam_update. generalize (map2 (@nmul R NumR) kappa c). intros kc. revert kc.
-  induction lam as [|l lam IH]; intros [|q kc]; cbn [map2]; try (constructor; fail).
-  constructor; [|apply IH].
-  unfold nmax. unfold_num. q2r. rcases; lra.
+  unfold lam_update. revert kappa c.
+  induction lam as [|l lam IH]; intros [|k kappa] [|c0 c]; cbn [zip3]; try (constructor; fail).
+  constructor; [apply sub_lam_update_nonneg | apply IH].
 Qed.
 
 Lemma scale_where_mono s poor kappa : 1 <= s -> nonneg kappa ->
@@ -213,8 +232,8 @@ Proof.
   - destruct poor; cbn [scale_where]; split; constructor.
   - inversion Hk; subst. destruct poor as [|p ps]; cbn [scale_where].
     + split; [apply le_vec_refl | exact Hk].
-    + destruct (IH ps H2) as [I1 I2]. unfold_num.
-      split; constructor; try assumption; destruct p; nra.
+    + destruct (IH ps H2) as [I1 I2]. destruct (sub_kappa_update_mono k p s Hs H1) as [J1 J2].
+      split; constructor; assumption.
 Qed.
 
 Ltac fa := repeat first [assumption | apply Forall_nil | apply Forall_cons | (apply Forall_app; split)].
